@@ -287,7 +287,7 @@ class LDT(DT):
             except _Break:
                 pass
             return
-        elem = ElemSym(f"∀{unparse(s.target)}∈{path_of(it)}", None, it)
+        elem = self._neighbour_pairs(it) or ElemSym(f"∀{unparse(s.target)}∈{path_of(it)}", None, it)
         stored = {t.id for st in s.body for t in ast.walk(st) if isinstance(t, ast.Name) and isinstance(t.ctx, ast.Store)}
         loaded = {t.id for st in s.body for t in ast.walk(st) if isinstance(t, ast.Name) and isinstance(t.ctx, ast.Load)}
         for nme in sorted((stored & loaded) - {t.id for t in ast.walk(s.target) if isinstance(t, ast.Name)}):
@@ -322,6 +322,35 @@ class LDT(DT):
                 g = GenList(before)
                 g.sources, g.filtered, g.origin = (it,), False, before
                 env[nme] = g
+
+    def _neighbour_pairs(self, it):
+        """zip(A, A[1:]) / pairwise(A), optionally under enumerate(..., start=s), where A = [T(r) for r in range(lo, hi)] (nothing filtered): the generic
+        element is the pair (T(q), T(q + 1)) for q in range(lo, hi - 1), with index q - lo + s.  None for anything else."""
+        start = None
+        if isinstance(it, CallSym) and it.meth == "enumerate" and it.recv is None and it.args:
+            start = dict(it.kw).get("start", it.args[1] if len(it.args) > 1 else 0)
+            it = it.args[0]
+        if not isinstance(it, CallSym):
+            return None
+        if it.meth == "pairwise" and len(it.args) == 1:
+            A = it.args[0]
+        elif it.meth == "zip" and it.recv is None and len(it.args) == 2 and isinstance(it.args[1], SliceSym) and it.args[1].base is it.args[0] \
+                and it.args[1].lo == 1 and it.args[1].hi is None:
+            A = it.args[0]
+        else:
+            return None
+        if not (isinstance(A, GenList) and len(A) == 1 and not A.filtered and A.origin is None and len(A.sources) == 1 and isinstance(A.sources[0], RangeSym)):
+            return None
+        rng = A.sources[0]
+        r = next((x for x in parts(A[0]) if isinstance(x, ElemSym) and x.source is rng), None)
+        if r is None or lin_of(rng.lo) is None or lin_of(rng.hi) is None or lin_of(start if start is not None else 0) is None:
+            return None
+        hi1 = self.binop(ast.Sub(), rng.hi, 1, None)
+        q = ElemSym(f"∀{r.path[1:].split('∈')[0]}∈range({path_of(rng.lo)}, {path_of(hi1)})", None, RangeSym(f"range({path_of(rng.lo)}, {path_of(hi1)})", None, rng.lo, hi1))
+        pair = (subst(A[0], r, q), subst(A[0], r, self.binop(ast.Add(), q, 1, None)))
+        if start is None:
+            return pair
+        return (self.binop(ast.Add(), self.binop(ast.Sub(), q, rng.lo, None), start, None), pair)
 
     # ---- structured values
     def ev_Name(self, n, env):
@@ -712,6 +741,8 @@ def declare(ctx: Ctx) -> None:
     ctx.assume("a container that a symbolic loop both fills and reads enters the generic iteration as an unknown symbol (its contents after 'some' earlier iterations); a list "
                "that is empty before the loop and only filled by it is a generic list (unknown length) afterwards; {x: f(x) for x in S}[y] with y an element of S or of a "
                "slice of S is the term f(y)")
+    ctx.assume("zip(A, A[1:]) / pairwise(A) over A = [T(r) for r in range(lo, hi)], optionally under enumerate(start=s), is iterated as the generic neighbour pair "
+               "(T(q), T(q+1)), q in range(lo, hi-1), index q-lo+s (terms obtained by substitution, no positions chosen)")
     ctx.assume("an expression the evaluator does not model (unknown call, attribute of an unknown object) becomes an opaque symbol named by its source text; a rule that "
                "meets an opaque symbol where it needs structure reports an analysis gap, never a verdict")
     ctx.assume("conditions are treated as independent atoms (all combinations enumerated, also infeasible ones): a violation is reported for a path whose condition set "
@@ -1531,6 +1562,31 @@ def _page_top(ctx: Ctx) -> None:
             srcs = [p for p in parts(elem.source)] if elem is not None else []
             from_info = any(isinstance(p, SubSym) and p.key == "group_values" and "pageby_header_info" in p.path for p in srcs)
             ctx.instance("R05.4", r.where(e[5]), f"page-top heading text `{path_of(txt)[:70]}`")
+            # the heading is LOOKED UP in the page's group values by a key that runs over some other sequence: that sequence fixes the order of the levels
+            look = None
+            if isinstance(t, CallSym) and t.meth == "get" and t.args:
+                look = (t.recv, t.args[0])
+            elif isinstance(t, SubSym):
+                look = (t.base, t.key)
+            if look is not None and isinstance(look[0], SubSym) and look[0].key == "group_values" and "pageby_header_info" in look[0].path and not from_info:
+                k = look[1]
+                src = None
+                if isinstance(k, ElemSym):
+                    src = k.source
+                elif isinstance(k, SubSym) and k.key == 1 and isinstance(k.base, ElemSym) and isinstance(k.base.source, CallSym) and k.base.source.meth == "enumerate" and k.base.source.args:
+                    src = k.base.source.args[0]
+                sp = path_of(strip_sym(src)) if src is not None else ""
+                if src is None:
+                    ctx.gap("R05.4", f"render: key `{path_of(k)[:50]}` of the page-top heading lookup is not an element of a sequence")
+                elif sp.endswith(".page_by") or sp == look[0].path:
+                    pass                                   # page_by declaration order / the group values' own order
+                elif sp.endswith(".columns") or (isinstance(src, CallSym) and src.recv is None and src.meth in ("sorted", "reversed", "set", "frozenset")):
+                    ctx.violation("R05.4", r.short, "page-top headings order " + sp[:50], r.where(e[5]),
+                                  f"the page-top headings are emitted in the order of `{sp[:60]}` (each level looked up by name), not in page_by declaration order: when the "
+                                  "frame stores the page_by columns in another order an inner heading is printed above its outer one")
+                else:
+                    ctx.gap("R05.4", f"render: page-top headings are looked up in the order of `{sp[:60]}`, whose relation to the page_by order is not known")
+                continue
             if not from_info:
                 ctx.gap("R05.4", f"render: page-top headings iterate `{path_of(elem.source)[:60] if elem is not None else '?'}`, not recognisably the page's pageby_header_info['group_values']")
                 continue
